@@ -37,41 +37,69 @@ sexp sexp_json_write_exception (sexp ctx, sexp self, const char* msg, sexp obj) 
   return res;
 }
 
+#define INIT_STRING_BUFFER_SIZE 128
+
+/* Store ch at buf[i] in a buffer which starts out on the stack (initbuf) */
+/* and moves to the heap as it grows.  Returns NULL when out of memory.   */
+static char* json_buffer_push (char *buf, char *initbuf, sexp_sint_t *size, sexp_sint_t i, int ch) {
+  char *tmp;
+  if (i+1 >= *size) {
+    tmp = (char*) sexp_malloc(*size*2);
+    if (tmp) memcpy(tmp, buf, i);
+    if (buf != initbuf) free(buf);
+    if (!tmp) return NULL;
+    buf = tmp;
+    *size *= 2;
+  }
+  buf[i] = ch;
+  return buf;
+}
+
+#define json_number_push(ch)                                            \
+  do {                                                                  \
+    if (!(buf = json_buffer_push(buf, initbuf, &size, i++, ch)))        \
+      return sexp_global(ctx, SEXP_G_OOM_ERROR);                        \
+  } while (0)
+
+/* Collect the text of the number and convert it with strtod, so that */
+/* the result is the double nearest to the decimal value.             */
 sexp json_read_number (sexp ctx, sexp self, sexp in) {
-  double res = 0, scale = 1;
-  int sign = 1, inexactp = 0, scale_sign = 1, ch;
+  sexp_sint_t size=INIT_STRING_BUFFER_SIZE, i=0;
+  char initbuf[INIT_STRING_BUFFER_SIZE];
+  char *buf=initbuf;
+  double res;
+  int inexactp = 0, ch;
   ch = sexp_read_char(ctx, in);
-  if (ch == '+') {
+  if (ch == '+' || ch == '-') {
+    json_number_push(ch);
     ch = sexp_read_char(ctx, in);
-  } else if (ch == '-') {
-    ch = sexp_read_char(ctx, in);
-    sign = -1;
   }
   for ( ; ch != EOF && isdigit(ch); ch = sexp_read_char(ctx, in))
-    res = res * 10 + ch - '0';
+    json_number_push(ch);
   if (ch == '.') {
     inexactp = 1;
-    for (ch = sexp_read_char(ctx, in); isdigit(ch); scale *= 10, ch = sexp_read_char(ctx, in))
-      res = res * 10 + ch - '0';
-    res /= scale;
+    json_number_push(ch);
+    for (ch = sexp_read_char(ctx, in); ch != EOF && isdigit(ch); ch = sexp_read_char(ctx, in))
+      json_number_push(ch);
   }
   if (ch == 'e' || ch == 'E') {
     inexactp = 1;
+    json_number_push(ch);
     ch = sexp_read_char(ctx, in);
-    if (ch == '+') {
+    if (ch == '+' || ch == '-') {
+      json_number_push(ch);
       ch = sexp_read_char(ctx, in);
-    } else if (ch == '-') {
-      ch = sexp_read_char(ctx, in);
-      scale_sign = -1;
     }
-    for (scale=0; isdigit(ch); ch = sexp_read_char(ctx, in))
-      scale = scale * 10 + ch - '0';
-    res *= pow(10.0, scale_sign * scale);
+    for ( ; ch != EOF && isdigit(ch); ch = sexp_read_char(ctx, in))
+      json_number_push(ch);
   }
   if (ch != EOF) sexp_push_char(ctx, ch, in);
+  buf[i] = '\0';
+  res = strtod(buf, NULL);
+  if (buf != initbuf) free(buf);
   return (inexactp || fabs(res) > SEXP_MAX_FIXNUM) ?
-    sexp_make_flonum(ctx, sign * res) :
-    sexp_make_fixnum(sign * res);  /* always return inexact? */
+    sexp_make_flonum(ctx, res) :
+    sexp_make_fixnum(res);  /* always return inexact? */
 }
 
 sexp json_read_literal (sexp ctx, sexp self, sexp in, char* name, sexp value) {
@@ -96,8 +124,6 @@ long decode_useq(sexp ctx, sexp in) {
   }
   return result;
 }
-
-#define INIT_STRING_BUFFER_SIZE 128
 
 sexp json_read_string (sexp ctx, sexp self, sexp in) {
   sexp_sint_t size=INIT_STRING_BUFFER_SIZE;
